@@ -673,3 +673,122 @@ Section TruncTables.
   Lemma p_based_nth_none_trunc i s : p_based_nth T i s = None -> forall n, p_based_nth T i (firstn n s) = None.
   Proof. unfold p_based_nth. destruct (nth_error (t_based T) i); [apply p_based_entry_none_trunc|reflexivity]. Qed.
 End TruncTables.
+
+(* ---- extension: success on x is success on x ++ z (parsers without optional parts) ---- *)
+Lemma eat_ext c x r z : eat c x = Some r -> eat c (x ++ z) = Some (r ++ z).
+Proof. intros H. apply eat_inv in H. subst x. cbn. unfold eat. now rewrite N.eqb_refl. Qed.
+Lemma span_while_max_full_ext p k x a r z : span_while_max p k x = (a, r) -> len a = k ->
+  span_while_max p k (x ++ z) = (a, r ++ z).
+Proof.
+  revert x a r; induction k as [|k IH]; intros x a r H L; cbn [span_while_max] in H.
+  - assert (a = [] /\ r = x) as [-> ->] by (destruct x; inversion H; auto). cbn. destruct (x ++ z); reflexivity.
+  - destruct x as [|c t]; [inversion H; subst; discriminate|]. destruct (p c) eqn:Pc; [|inversion H; subst; discriminate].
+    destruct (span_while_max p k t) as [a' r'] eqn:E. inversion H; subst. cbn [List.length] in L.
+    cbn [app span_while_max]. rewrite Pc. rewrite (IH _ _ _ E) by lia. reflexivity.
+Qed.
+Lemma p_digits_n_ext k x d r z : p_digits_n k x = Some (d, r) -> p_digits_n k (x ++ z) = Some (d, r ++ z).
+Proof.
+  unfold p_digits_n. intros H. destruct (span_while_max is_digit k x) as [a r'] eqn:E.
+  destruct (Nat.eqb (len a) k) eqn:X; [|discriminate]. inversion H; subst. apply Nat.eqb_eq in X.
+  rewrite (span_while_max_full_ext _ _ _ _ _ z E X). now rewrite (proj2 (Nat.eqb_eq _ _) X).
+Qed.
+
+Section TruncDate.
+  Variable T : tables.
+
+  Lemma p_date_inner_trunc s d r : p_date_inner T s = Some (d, r) -> forall n, len s - len r <= n ->
+    p_date_inner T (firstn n s) = Some (d, cut n s r).
+  Proof.
+    unfold p_date_inner. intros H n Hn.
+    destruct (p_digits_n (dd T 0) s) as [[y r0]|] eqn:E0; [|discriminate].
+    destruct (eat 45%N r0) as [r1|] eqn:E1; [|discriminate].
+    destruct (p_digits_n (dd T 1) r1) as [[m r2]|] eqn:E2; [|discriminate].
+    destruct (eat 45%N r2) as [r3|] eqn:E3; [|discriminate].
+    destruct (p_digits_n (dd T 2) r3) as [[d0 r4]|] eqn:E4; [|discriminate].
+    inversion H; subst; clear H.
+    pose proof (p_digits_n_weak _ _ _ _ E0) as [_ L0]. pose proof (p_digits_n_weak _ _ _ _ E2) as [_ L2].
+    pose proof (p_digits_n_weak _ _ _ _ E4) as [_ L4]. lens.
+    rewrite (p_digits_n_trunc _ _ _ _ E0) by lia. rewrite (eat_trunc _ _ _ E1) by lia.
+    rewrite (p_digits_n_trunc _ _ _ _ E2) by lia. rewrite (eat_trunc _ _ _ E3) by lia.
+    rewrite (p_digits_n_trunc _ _ _ _ E4) by lia. cuteq.
+  Qed.
+  Lemma p_date_inner_ext x d r z : p_date_inner T x = Some (d, r) -> p_date_inner T (x ++ z) = Some (d, r ++ z).
+  Proof.
+    unfold p_date_inner. intros H.
+    destruct (p_digits_n (dd T 0) x) as [[y r0]|] eqn:E0; [|discriminate].
+    destruct (eat 45%N r0) as [r1|] eqn:E1; [|discriminate].
+    destruct (p_digits_n (dd T 1) r1) as [[m r2]|] eqn:E2; [|discriminate].
+    destruct (eat 45%N r2) as [r3|] eqn:E3; [|discriminate].
+    destruct (p_digits_n (dd T 2) r3) as [[d0 r4]|] eqn:E4; [|discriminate].
+    inversion H; subst; clear H.
+    rewrite (p_digits_n_ext _ _ _ _ z E0), (eat_ext _ _ _ z E1), (p_digits_n_ext _ _ _ _ z E2), (eat_ext _ _ _ z E3),
+      (p_digits_n_ext _ _ _ _ z E4). reflexivity.
+  Qed.
+  Lemma p_date_inner_none_trunc s : p_date_inner T s = None -> forall n, p_date_inner T (firstn n s) = None.
+  Proof.
+    intros H n. destruct (p_date_inner T (firstn n s)) as [[d r]|] eqn:E; [|reflexivity].
+    apply (p_date_inner_ext _ _ _ (skipn n s)) in E. rewrite firstn_skipn in E. congruence.
+  Qed.
+
+  Lemma p_tz_notz s : fst (p_tz T s) = [] -> forall n, p_tz T (firstn n s) = ([], firstn n s).
+  Proof.
+    unfold p_tz. intros H n. destruct (eat 90%N s) as [r'|] eqn:Z; [cbn in H; discriminate|].
+    rewrite eat_none_trunc by exact Z.
+    destruct s as [|sg r']; [now rewrite firstn_nil|]. destruct n as [|n]; [reflexivity|]. cbn [firstn].
+    destruct ((N.eqb sg 43%N) || (N.eqb sg 45%N)); [|reflexivity].
+    destruct (p_digits_n (zd T 0) r') as [[hh r'']|] eqn:D1.
+    - destruct (p_digits_n_len _ _ _ _ D1) as [K1 K2].
+      destruct (Nat.le_gt_cases (zd T 0) n) as [G|G].
+      + rewrite (p_digits_n_trunc _ _ _ _ D1 n) by lia.
+        destruct (opt_eat_firstn_cases 58%N (n - (len r' - len r'')) r'') as [m' ->].
+        destruct (p_digits_n (zd T 1) (opt_eat 58%N r'')) as [[mm r5]|] eqn:D2; [cbn in H; discriminate|].
+        now rewrite p_digits_n_none_trunc.
+      + now rewrite p_digits_n_short.
+    - now rewrite p_digits_n_none_trunc.
+  Qed.
+  Lemma p_tz_trunc s d r : p_tz T s = (d, r) -> forall n, len s - len r <= n -> p_tz T (firstn n s) = (d, cut n s r).
+  Proof.
+    intros H n Hn. destruct d as [|d0 d].
+    - assert (r = s) as ->.
+      { unfold p_tz in H. destruct (eat 90%N s); [discriminate|]. destruct s as [|sg r']; [inversion H; reflexivity|].
+        destruct ((N.eqb sg 43%N) || (N.eqb sg 45%N)); [|inversion H; reflexivity].
+        destruct (p_digits_n (zd T 0) r') as [[hh r'']|]; [|inversion H; reflexivity].
+        destruct (p_digits_n (zd T 1) (opt_eat 58%N r'')) as [[mm r5]|]; [discriminate|inversion H; reflexivity]. }
+      replace (n - (len s - len s)) with n by lia. apply p_tz_notz. now rewrite H.
+    - unfold p_tz in *. destruct (eat 90%N s) as [r'|] eqn:Z.
+      + inversion H; subst; clear H. now rewrite (eat_trunc _ _ _ Z n Hn).
+      + rewrite eat_none_trunc by exact Z. destruct s as [|sg r']; [discriminate|].
+        destruct ((N.eqb sg 43%N) || (N.eqb sg 45%N)) eqn:SG; [|discriminate].
+        destruct (p_digits_n (zd T 0) r') as [[hh r'']|] eqn:D1; [|discriminate].
+        destruct (p_digits_n (zd T 1) (opt_eat 58%N r'')) as [[mm r5]|] eqn:D2; [|discriminate].
+        inversion H; subst; clear H.
+        pose proof (p_digits_n_weak _ _ _ _ D1) as [_ L1]. pose proof (p_digits_n_weak _ _ _ _ D2) as [_ L2].
+        pose proof (opt_eat_weak 58%N r'') as [_ L3]. cbn [List.length] in *.
+        destruct n as [|n]; [lia|]. cbn [firstn]. rewrite SG.
+        rewrite (p_digits_n_trunc _ _ _ _ D1 n) by lia. rewrite opt_eat_trunc by lia.
+        rewrite (p_digits_n_trunc _ _ _ _ D2) by lia. cuteq.
+  Qed.
+
+  Lemma p_time_inner_trunc s d r : p_time_inner T s = Some (d, r) -> forall n, len s - len r <= n ->
+    p_time_inner T (firstn n s) = Some (d, cut n s r).
+  Proof.
+    unfold p_time_inner. intros H n Hn.
+    destruct (p_digits_n (td T 0) s) as [[h r0]|] eqn:E0; [|discriminate].
+    destruct (opt_comp 58%N (p_digits_n (td T 1)) r0) as [mi r1] eqn:E1.
+    destruct (opt_comp 58%N (p_digits_n (td T 2)) r1) as [se r2] eqn:E2.
+    destruct (opt_comp 46%N (p_digits_1_max (t_ms_max T)) r2) as [ms r3] eqn:E3.
+    destruct (p_tz T r3) as [tz r4] eqn:E4. inversion H; subst; clear H.
+    pose proof (p_digits_n_weak _ _ _ _ E0) as [_ L0].
+    assert (W1 : forall k x y z, p_digits_n k x = Some (y, z) -> len z <= len x) by (intros k x y z Hx; apply (p_digits_n_weak _ _ _ _ Hx)).
+    assert (W2 : forall k x y z, p_digits_1_max k x = Some (y, z) -> len z <= len x) by (intros k x y z Hx; apply (p_digits_1_max_weak _ _ _ _ Hx)).
+    pose proof (opt_comp_weak _ _ _ _ _ (fun x y z Hx => p_digits_n_weak _ _ _ _ Hx) E1) as [_ L1].
+    pose proof (opt_comp_weak _ _ _ _ _ (fun x y z Hx => p_digits_n_weak _ _ _ _ Hx) E2) as [_ L2].
+    pose proof (opt_comp_weak _ _ _ _ _ (fun x y z Hx => p_digits_1_max_weak _ _ _ _ Hx) E3) as [_ L3].
+    pose proof (p_tz_weak _ _ _ _ E4) as [_ L4].
+    rewrite (p_digits_n_trunc _ _ _ _ E0) by lia.
+    rewrite (opt_comp_trunc _ _ _ _ _ (p_digits_n_trunc _) (p_digits_n_none_trunc _) (W1 _) E1) by lia.
+    rewrite (opt_comp_trunc _ _ _ _ _ (p_digits_n_trunc _) (p_digits_n_none_trunc _) (W1 _) E2) by lia.
+    rewrite (opt_comp_trunc _ _ _ _ _ (p_digits_1_max_trunc _) (p_digits_1_max_none_trunc _) (W2 _) E3) by lia.
+    rewrite (p_tz_trunc _ _ _ E4) by lia. cuteq.
+  Qed.
+End TruncDate.
